@@ -45,7 +45,7 @@ _Static_assert(GS_PMAX <= G_IN_MAX, "ghost stream too small for the window: comp
 int g_L[GS_LMAX + 30];        /* LEX_EOF-filled far past the window: the oracles look ahead without bounds tests */
 unsigned g_k[GS_LMAX + 1];
 size_t g_m;
-size_t g_off[GS_LMAX + 30];
+unsigned char g_off[GS_LMAX + 30];   /* offsets are < GS_PMAX <= 255: one table byte */
 unsigned char g_nlcum[G_IN_MAX + 2];   /* small counts: the window has at most G_IN_MAX bytes */
 unsigned char g_colrel[G_IN_MAX + 2];  /* column of offset j counted from the last new-line (or from offset 0) */
 #define g_colof(j) ((size_t)g_colrel[j] + (g_nlcum[j] == 0 ? g_col0 : 0))
@@ -173,7 +173,7 @@ gs_splices_at(size_t p)
 #define SYNC_COL(s)   ((s)->loc.col == ((s)->chr == '\n' ? 0 : (s)->chr == LEX_EOF ? g_colof(g_in_n) : g_colof(CHR_OFF)))
 
 /* the scanner stands on logical character i: it is in s->chr and the stream continues right after it */
-#define GS_POS_AFTER(i) ((size_t)(i) < g_m ? g_off[i] + 1 : g_in_n)
+#define GS_POS_AFTER(i) ((size_t)(i) < g_m ? (size_t)g_off[i] + 1 : g_in_n)
 #define AT(s, i)      ((s)->chr == g_L[i] && g_in_pos == GS_POS_AFTER(i))
 /* ... or further on inside the run of splices that precedes logical character i+1 (only splices were skipped) */
 #define AT_LOOSE(s, i) ((s)->chr == g_L[i] && g_in_pos >= GS_POS_AFTER(i) && g_in_pos <= g_off[(i) + 1] && \
@@ -280,27 +280,29 @@ nextchar_abs(struct scanner *s)
  *   (already on the next line, column 0).  nextchar_abs preserves it (that is its line/column rule).
  */
 size_t g_pl0, g_pc0;
-size_t g_pline[GS_LMAX + 2];
-size_t g_pcol[GS_LMAX + 2];
+unsigned char g_plrel[GS_LMAX + 2];   /* physical lines between character 0 and character i (small: one table byte) */
+unsigned char g_pcrel[GS_LMAX + 2];   /* column of character i relative to the start of its line, or to character 0 */
+#define g_pline(i) (g_pl0 + g_plrel[i])
+#define g_pcol(i)  ((size_t)g_pcrel[i] + (g_plrel[i] == 0 ? g_pc0 : 0))
 
 static void
 gs_abs_tables(void)
 {
 	size_t i;
 
-	g_pline[0] = g_pl0;
-	g_pcol[0] = g_pc0;
+	g_plrel[0] = 0;
+	g_pcrel[0] = 0;
 	for (i = 1; i <= GS_LMAX + 1; i++) {
 		unsigned k = i <= GS_LMAX ? g_k[i] : 0;
 		int prevnl = g_L[i - 1] == '\n';
 
-		g_pline[i] = g_pline[i - 1] + prevnl + k;
-		g_pcol[i] = k > 0 || prevnl ? 1 : g_pcol[i - 1] + 1;
+		g_plrel[i] = g_plrel[i - 1] + prevnl + k;
+		g_pcrel[i] = k > 0 || prevnl ? 1 : g_pcrel[i - 1] + 1;
 	}
 }
 #define GS_IDX(i)     ((i) <= GS_LMAX + 1 ? (i) : GS_LMAX + 1)
-#define SYNC_ABS(s)   ((s)->loc.line == g_pline[GS_IDX(g_li)] + ((s)->chr == '\n') && \
-                       (s)->loc.col == ((s)->chr == '\n' ? 0 : g_pcol[GS_IDX(g_li)]))
+#define SYNC_ABS(s)   ((s)->loc.line == g_pline(GS_IDX(g_li)) + ((s)->chr == '\n') && \
+                       (s)->loc.col == ((s)->chr == '\n' ? 0 : g_pcol(GS_IDX(g_li))))
 
 /* Stand-in for comment() in the units of its caller scankind (replace_calls comment:comment_spec): the post-state that
  * SCAN.comment proves for the real comment(), computed from the comment oracle of spec/lex.h: no comment -> false and
@@ -329,8 +331,8 @@ comment_spec(struct scanner *s)
 	s->chr = j < g_m ? g_L[j] : LEX_EOF;
 	g_in_pos = GS_POS_AFTER(j);
 	g_unget_depth = s->chr == '\\' && g_in_pos < g_in_n ? 1 : 0;
-	s->loc.line = g_pline[GS_IDX(j)] + (s->chr == '\n');
-	s->loc.col = s->chr == '\n' ? 0 : g_pcol[GS_IDX(j)];
+	s->loc.line = g_pline(GS_IDX(j)) + (s->chr == '\n');
+	s->loc.col = s->chr == '\n' ? 0 : g_pcol(GS_IDX(j));
 	s->sawspace = true;
 	return true;
 }
